@@ -396,6 +396,13 @@ DOT_IMPORT = {
 }
 
 
+# declared injector names that are not Go identifiers: whatever the generator does with such a declaration, a file it
+# writes has to compile (repaired: the names were emitted verbatim)
+BAD_NAMES = {
+    "k.go": 'package main\n\nimport "github.com/mazrean/kessoku"\n\ntype A struct{ S string }\n\nfunc NewA() *A { return &A{S: "a"} }\n\nvar _ = kessoku.Inject[*A]("type", kessoku.Provide(NewA))\nvar _ = kessoku.Inject[*A]("", kessoku.Provide(NewA))\nvar _ = kessoku.Inject[*A]("not an ident", kessoku.Provide(NewA))\nvar _ = kessoku.Inject[*A]("InitA", kessoku.Provide(NewA))\n\nfunc main() {\n\tif InitA().S != "a" {\n\t\tpanic("wrong result")\n\t}\n}\n',
+}
+
+
 def write_pkg(mod, name, files):
     d = os.path.join(mod, name)
     os.makedirs(d, exist_ok=True)
@@ -460,6 +467,7 @@ def _stage(seed, tier, key="N-x"):
         files, targets, meta = third_pkg_clash(rnd, i)
         pkgs.append(("tp%d" % i, files, targets, None, meta))
     pkgs.append(("dot_import", DOT_IMPORT, ["k.go"], None, dict(kind="identifiers of a dot-imported package in provider expressions", run=True)))
+    pkgs.append(("bad_names", BAD_NAMES, ["k.go"], None, dict(kind="declared injector names that are not identifiers", run=True)))
     pkgs.append(("xset", XSET, ["k.go"], "KF-C10-1", dict(kind="known finding reproducer (Set of another package)", signature="no vet signature: the file compiles",
                                                        expect_params={"k_band.go": {"InitB": []}}, known_params={"k_band.go": {"InitB": ["*prov.A"]}})))
     for kid, (body, sig) in KNOWN.items():
